@@ -27,6 +27,7 @@ RULE = ('one evaluation = one seeded run: (a) a single-client history of push/pu
         'pull; non-trivial = at least 3 queue operations (a) / a context switch (b, c); distinct = SHA-256 of program or event log')
 RULE += ' ' + 'A fifth of the single-client histories run under JSONDisk (text values, no iteration).'
 RULE += ' ' + 'One seed in 53 places a complete foreign pull at every value-file open of one peek, up to 29 times in a row.'
+RULE += ' ' + "Ordinary keys include '<prefix>-<digits>' texts of other lengths than queue keys."
 ASSUMPTIONS = ['free-running real producer/consumer processes are replaced by seeded schedules of simulated processes']
 PROBES = ('queue_ops', 'cull_expired', 'lock_wait', 'related_prefixes', 'json_disk', 'lost_races')
 TECHNIQUE = 'deterministic simulation: model-based checking of queue histories under a virtual clock; seeded schedules + linearizability against a deque model; consumer crash injection'
@@ -40,7 +41,9 @@ PREFIXES = [None, 'a', 'b', 'a-5', 'a-b', 'é', '', '5', 'a-b-c', 'a%', 'a_',
             'q[1]', 'q1', 'a*', 'a?', "it's", 'a"b', 'a]', 'a\\', 'a b', 'A', '\U0001F600', 'a' * 300]
 # ordinary keys outside the queue key ranges, including the range bounds themselves (the ranges are open intervals)
 ORDINARY = ['x', 'a', 'b-', -5, {'i': str(10 ** 15)}, {'b': b'a-500000000000000'.hex()}, 'a-', {'t': [1, 2]},
-            0, 999999999999999, 'a-000000000000000', 'a-999999999999999', 'b-000000000000000']
+            0, 999999999999999, 'a-000000000000000', 'a-999999999999999', 'b-000000000000000',
+            # ordinary text keys that sort inside a queue's key range without having the shape of its keys
+            'a-42', 'a-3', 'b-7', 'a-5000000000000000', 'a-50000000000000', '5-1', '-7']
 
 
 def gen_case(seed, tier):
